@@ -6,7 +6,7 @@
    [Rops ora] is the real-number instance of the number interface. *)
 From Coq Require Import Reals List ZArith.
 From Coquelicot Require Import Coquelicot.
-From GS Require Import Num Loops RInst Summator_gen C15_KernelSpec C16_Spec C16_Refine C16_Div C16_Stat C16_Split.
+From GS Require Import Num Loops RInst Summator_gen C15_KernelSpec C16_Spec C16_Refine C16_Div C16_Stat C16_Split C16_Linear.
 Import ListNotations.
 Open Scope R_scope.
 
@@ -171,3 +171,46 @@ Theorem C16_variance_split_3d :
     RInt (fun m => RInt (fun t => (proj_of (Rops ora) (kdir3 r m t) 2 0) ^ 2) 0 (2 * PI)) (-1) 1 / (4 * PI) = 1 / 15.
 Proof. exact split_3d. Qed.
 Print Assumptions C16_variance_split_3d.
+
+(* positions through a linear map, components unchanged (what SRF does for rotated / anisotropic models: the positions are
+   isometrized, the components are not turned back): w(x) = u(A x).  For EVERY matrix A, in the user's coordinates,
+   div w(x) = amp * sum_j W'_j(<k_j, A x>) * sum_d p_d(k_j) (A^T k_j)_d *)
+Theorem C16_divergence_linear_map :
+  forall ora mean_u var N (A ks : list (list R)) z1 z2 (x : list R),
+    (forall c d, (d < length x)%nat ->
+       ex_derive (fun t => velocity (Rops ora) mean_u var N ks z1 z2 (mat_vec A (aupd x d t)) c) (aget 0 x d)) /\
+    Rsum (fun d => Derive (fun t => velocity (Rops ora) mean_u var N ks z1 z2 (mat_vec A (aupd x d t)) d) (aget 0 x d)) (length x)
+    = incompr_amp (Rops ora) mean_u var N *
+      Rsum (fun j => (aget 0 z2 j * cos (Rphase ks (mat_vec A x) j) - aget 0 z1 j * sin (Rphase ks (mat_vec A x) j))
+                     * map_coeff ora A ks (length x) j) (shape1 ks).
+Proof. exact divergence_linear_map. Qed.
+Print Assumptions C16_divergence_linear_map.
+
+(* multiples of the identity keep the field divergence free *)
+Theorem C16_divergence_scalar_map :
+  forall ora mean_u var N lam (A ks : list (list R)) z1 z2 (x : list R),
+    length x = shape0 ks -> (0 < shape0 ks)%nat -> scalar_matrix lam (shape0 ks) A ->
+    (forall j, (j < shape1 ks)%nat -> exists d, (d < shape0 ks)%nat /\ aget2 0 ks d j <> 0) ->
+    Rsum (fun d => Derive (fun t => velocity (Rops ora) mean_u var N ks z1 z2 (mat_vec A (aupd x d t)) d) (aget 0 x d)) (length x) = 0.
+Proof. exact divergence_scalar_map. Qed.
+Print Assumptions C16_divergence_scalar_map.
+
+(* 2-D: the per-mode factor vanishes for every non-zero wave vector exactly for the multiples of the identity *)
+Theorem C16_coeff_zero_iff_scalar_2d :
+  forall ora a b c d,
+    (forall k0 k1, k0 * k0 + k1 * k1 <> 0 -> map_coeff ora [[a; b]; [c; d]] [[k0]; [k1]] 2 0 = 0)
+    <-> (b = 0 /\ c = 0 /\ a = d).
+Proof. exact coeff_zero_iff_scalar_2d. Qed.
+Print Assumptions C16_coeff_zero_iff_scalar_2d.
+
+(* witnesses (one sine mode k = (1,1), mean_u = var = N = 1, origin): a quarter turn of the positions gives divergence 1,
+   a stretch of the second axis by 2 gives divergence -1/2 — rotated or anisotropic evaluation without turning the
+   components back is not solenoidal *)
+Theorem C16_rotated_or_stretched_not_solenoidal :
+  forall ora,
+    Rsum (fun e => Derive (fun t => velocity (Rops ora) 1 1 1 [[1]; [1]] [0] [1] (mat_vec [[0; -1]; [1; 0]] (aupd [0; 0] e t)) e)
+                          (aget 0 [0; 0] e)) 2 = 1 /\
+    Rsum (fun e => Derive (fun t => velocity (Rops ora) 1 1 1 [[1]; [1]] [0] [1] (mat_vec [[1; 0]; [0; 2]] (aupd [0; 0] e t)) e)
+                          (aget 0 [0; 0] e)) 2 = - (1 / 2).
+Proof. exact (fun ora => conj (quarter_turn_not_solenoidal ora) (stretch_not_solenoidal ora)). Qed.
+Print Assumptions C16_rotated_or_stretched_not_solenoidal.
